@@ -30,7 +30,11 @@ type WOp struct {
 	// Journal (put, casok): the value written is what the storage held for the key just before (the raw stored bytes where the
 	// environment can read them, else the previous version string): a writer that keeps the previous record as undo information
 	Journal bool `json:"journal,omitempty"`
-	Quiet   int  `json:"quiet,omitempty"` // quiet: nothing happens for that many milliseconds (real time where the clock is real)
+	// Lag (put, where the server's clock does not follow the real one): the record carries an expiry a few milliseconds ahead
+	// of the CLIENT's clock and real time then passes it, while the server, whose clock lags, keeps and serves the
+	// record: for every waiter the key exists
+	Lag   bool `json:"lag,omitempty"`
+	Quiet int  `json:"quiet,omitempty"` // quiet: nothing happens for that many milliseconds (real time where the clock is real)
 }
 
 // WCase is a waiter script.
@@ -40,18 +44,19 @@ type WCase struct {
 
 // WEnv is where a script runs.
 type WEnv struct {
-	Name       string
-	St         kvs.Storage
-	Prefix     string
-	Settle     func(mustReturn []chan struct{}) bool // reach quiescence; false = a waiter that must return did not (bounded real time only)
-	Advance    func(time.Duration)                   // nil: no clock control (advance/Exp are skipped)
-	Now        func() time.Time
-	Table      func() (int, int, bool)
-	Gates      bool                    // gated starts are possible (deterministic environment only)
-	Fault      func()                  // makes the storage behind the backend fail for a moment (nil: not available)
-	PastWrites bool                    // records may be written with an expiry that is already in the past (backends without TTL clamping)
-	Raw        func(key string) []byte // the bytes the storage behind the backend holds for the key (nil: not readable)
-	Quiet      func(time.Duration)     // lets time pass with nothing happening (nil: time.Sleep)
+	Name          string
+	St            kvs.Storage
+	Prefix        string
+	Settle        func(mustReturn []chan struct{}) bool // reach quiescence; false = a waiter that must return did not (bounded real time only)
+	Advance       func(time.Duration)                   // nil: no clock control (advance/Exp are skipped)
+	Now           func() time.Time
+	Table         func() (int, int, bool)
+	Gates         bool                    // gated starts are possible (deterministic environment only)
+	Fault         func()                  // makes the storage behind the backend fail for a moment (nil: not available)
+	PastWrites    bool                    // records may be written with an expiry that is already in the past (backends without TTL clamping)
+	LaggingServer bool                    // the storage's server ages records by its own clock, which stands still unless Advance is called
+	Raw           func(key string) []byte // the bytes the storage behind the backend holds for the key (nil: not readable)
+	Quiet         func(time.Duration)     // lets time pass with nothing happening (nil: time.Sleep)
 }
 
 type wkey struct {
@@ -287,6 +292,20 @@ func runWait(c WCase, env *WEnv, info *WInfo, livep *[]*wtr) *vstat.Violation {
 			}
 		case "put":
 			exp := (op.Exp || pastNow) && env.Advance != nil
+			if op.Lag && env.LaggingServer && !pastNow {
+				t := env.Now().Add(15 * time.Millisecond)
+				r, err := env.St.Put(ctx, kvs.Record{Key: name(k), Value: value(op, k, "p"), ExpiresAt: &t})
+				if err != nil {
+					return vstat.V(env.Name+":put-error", "%s: Put failed: %s", where, errName(err))
+				}
+				time.Sleep(time.Until(t) + 10*time.Millisecond)
+				if _, err := env.St.Get(ctx, name(k)); err != nil {
+					return vstat.V(env.Name+":wait-harness", "internal: the lagging server does not serve the record any more: %s", errName(err))
+				}
+				info.class("record_expired_by_the_client_clock_served_by_a_lagging_server")
+				wrote(k, r.Version, false) // the server will not drop it during the script
+				break
+			}
 			r, err := env.St.Put(ctx, kvs.Record{Key: name(k), Value: value(op, k, "p"), ExpiresAt: expiry(exp)})
 			if err != nil {
 				return vstat.V(env.Name+":put-error", "%s: Put failed: %s", where, errName(err))
